@@ -477,7 +477,7 @@ def validate_model(rep):
 
 def run(rep: Report):
     tier = rep.tier
-    opts = {"prove_timeout_ms": 10000, "fork_timeout_ms": 2000, "seed": rep.seed, "scenario_wall_s": 240 if tier == "quick" else 900}
+    opts = {"prove_timeout_ms": 10000, "fork_timeout_ms": 2000, "seed": rep.seed, "scenario_wall_s": 900 if tier == "quick" else 900}
     plan = []
     for k in ("logger", "trajectory", "restart"):
         # (observer mode argument, handle really opened for appending): 'w' file, 'a' file, and a user
